@@ -90,5 +90,14 @@ CLAIMED['C15'] = {
             'compact-vs-indented JSON equality (json library, C code). Colours disabled in harnesses.',
 }
 
+CLAIMED['C04'] = {
+    'engines': 'ZX',
+    'technique': 'symbolic execution of the real post_process_findings and output() on cipher/MAC lists instantiated with table names and symbolic tokens of vulnerable and near-miss shape; table diff against the pristine master table; oracle = published boolean rule',
+    'text': 'For role x marker x cipher forms x MAC forms within the bounds z3 shows: without the role\'s marker exactly the ChaCha20 / (CBC and EtM) table names get exactly one '
+            'Terrapin warning and no other row of any category changes; with the marker no row changes and one advisory names exactly those algorithms; disabled class members '
+            'are suppressed and never recommended; text and JSON show the note on exactly those names.',
+    'note': 'Token alphabet [a-z0-9-@], one symbolic token per name; decoy lists on the other direction make role confusion visible; known finding: unknown names of vulnerable shape cannot carry the note.',
+}
+
 NOT_APPLICABLE = {
 }
